@@ -259,6 +259,38 @@ func durableDomain(lines []string) []string {
 			}
 			dc.acked = recs
 			dc.out = append(dc.out, verdict)
+		case "saveretry": // a SaveOffset that fails (its context is already over) is retried with the same offset, then the store is reopened
+			st, err := ebsql.New(dc.path)
+			if err != nil {
+				dc.out = append(dc.out, "!open-failed "+err.Error())
+				continue
+			}
+			data, _ := json.Marshal(map[string]int{"id": dc.next})
+			off, err := st.Append(context.Background(), &eb.Event{Type: "t", Data: data, Timestamp: time.Unix(int64(dc.next), 0)})
+			if err != nil {
+				st.Close()
+				dc.out = append(dc.out, "!append-failed "+err.Error())
+				continue
+			}
+			dc.acked = append(dc.acked, dc.next)
+			dc.next++
+			dead, cancel := context.WithCancel(context.Background())
+			cancel()
+			err1 := st.SaveOffset(dead, "s", off)
+			err2 := st.SaveOffset(context.Background(), "s", off)
+			st.Close()
+			_, _, saved, rerr := dc.readAll()
+			switch {
+			case rerr != nil:
+				dc.out = append(dc.out, "!reopen-failed "+rerr.Error())
+			case err2 != nil:
+				dc.out = append(dc.out, "!saveretry the retry failed: "+err2.Error())
+			case saved != atoi(string(off)):
+				dc.out = append(dc.out, fmt.Sprintf("!saveretry SaveOffset(%s) returned nil (first attempt: %v) but after reopening the saved offset is %d", off, err1, saved))
+			default:
+				dc.savedAck = saved
+				dc.out = append(dc.out, "saveretry ok")
+			}
 		case "busyappend": // another connection holds the write lock for longer than the busy timeout
 			other, err := sql.Open("sqlite", "file:"+dc.path)
 			if err != nil {
